@@ -215,3 +215,15 @@ def _roundtrip(P, text, atts, etype, nsp, pid, data, what):
 
 def classify(case, v):
     return v.kind
+
+
+def extra_engines(tier, seed, acc, deadline):
+    """Thorough tier: coverage-guided atheris campaign over the same
+    Hypothesis test (fuzz_one_input), 4 parallel libFuzzer processes."""
+    if tier != 'thorough':
+        return
+    import time
+    from ..fuzz_driver import campaign
+    budget = max(60, min(900, deadline - time.time() - 60))
+    for case in campaign(PID, 150000, seed, budget, acc):
+        yield case
